@@ -206,8 +206,9 @@ func readerLayout(p *Program, fn *ssa.Function) ([]layoutElem, []string) {
 			}
 		}
 		// a path that reports an error of the decoder's own is not a success either
-		if !pr.Results[0].IsNil() {
-			if k, isNil := pr.Facts.Decide(eqTerm(pr.Results[0], nilTerm(nil))); !(k && isNil) {
+		if r0 := pr.Results[0]; !r0.IsNil() && r0.Op != "ext" && r0.Op != "call" {
+			// (the error of the last read handed on unchecked is the success path of a decoder that ends `return err`)
+			if k, isNil := pr.Facts.Decide(eqTerm(r0, nilTerm(nil))); !(k && isNil) {
 				return
 			}
 		}
